@@ -204,6 +204,17 @@ def edited_insert(ctx, case):
                 f.start, f.end = target[f.attributes["ID"][0]]
                 return f
             db = gffutils.create_db("\n".join(lines), dbfn, from_string=True, transform=tr)
+        elif case["how"] == "add_relation-hooks":
+            # the documented hook functions of add_relation return the (edited) features, which are written back
+            db = gffutils.create_db("\n".join(lines), dbfn, from_string=True)
+
+            def move(f):
+                f.start, f.end = target[f.id]
+                return f
+            ids = sorted(target)
+            for fid in ids[1:]:
+                db.add_relation(ids[0], fid, 1, child_func=lambda parent, child: move(child))
+            db.add_relation(ids[0], ids[1], 2, parent_func=lambda parent, child: move(parent))
         else:
             db = gffutils.create_db("\n".join(lines), dbfn, from_string=True)
             edited = []
@@ -226,6 +237,15 @@ def edited_insert(ctx, case):
             if S.in_range(ns, ne) and ns <= ne:
                 hits = [f.id for f in db.region(("chr1", ns, ne), completely_within=True)]
                 hits2 = [f.id for f in db.all_features(limit=("chr1", ns, ne))]
+                # the same query in the documented string form, and a wider one that starts with fewer digits
+                hits3 = [f.id for f in db.region("chr1:%d-%d" % (ns, ne))]
+                wide = "chr1:%d-%d" % (max(1, ns // 10 * 9 if ns > 20 else 1), min(S.LIMIT - 1, ne + 1500))
+                hits4 = [f.id for f in db.all_features(limit=wide)] + ["|"] + [f.id for f in db.region(wide)]
+                ctx.mon("query forms (tuple, string, wider string) checked against a stored bin")
+                if fid not in hits3 or hits4.count(fid) != 2:
+                    ctx.violation(case, {"why": "a stored feature is not found by a query given in string form around its position",
+                                         "feature": fid, "coords": [ns, ne], "region(str)": hits3, "wider": wide, "limit/region(wider)": hits4})
+                    return
                 if fid not in hits or fid not in hits2:
                     ctx.violation(case, {"why": "a feature stored after a coordinate edit is not found by a query around its position",
                                          "feature": fid, "coords": [ns, ne], "region": hits, "limit": hits2, "how": case["how"]})
@@ -338,7 +358,7 @@ def run(ctx):
             s0 = rng.choice(inr2); e0 = min(S.LIMIT - 1, s0 + rng.randrange(0, 3000))
             s1 = rng.choice(inr2); e1 = min(S.LIMIT - 1, s1 + rng.choice([0, 1, 2, 500, 2 ** 17, 2 ** 20 + 3]))
             moves.append((s0, e0, s1, e1))
-        case = {"kind": "edited", "how": rng.choice(["transform", "update-replace"]), "moves": moves}
+        case = {"kind": "edited", "how": rng.choice(["transform", "update-replace", "add_relation-hooks"]), "moves": moves}
         execute(ctx, case)
         ctx.case(("edited", case["how"], moves), True, sample=case if rng.random() < 0.1 else None, cls="insert after coordinate edit")
     # 7. Feature objects built by gffutils itself next to bin boundaries
